@@ -10,7 +10,11 @@ R1  sum over sources (T-AGREE): sum_total_emissions ranges over the whole
 R2  fuel for exactly those components (T-PAIR): the components whose
     `.emissions` are summed are exactly those whose `.fuel_burn` enters
     total_fuel_burn, each added in the control region of its computation.
-R3  amount = EI × component fuel (T-PAIR + def-use): per producer, every place
+R3  amount = EI × component fuel (T-PAIR + def-use): per producer, the index
+    map, the amount map and the reported fuel are read off the EmissionsSubset
+    it returns (whatever the locals are called), and the variable that
+    multiplies the indices must be the one whose value (APU) or sum (LTO; over
+    the counted slice for the trajectory) is reported as fuel_burn.  Every place
     that fills the emissions map under a variable key stores a product whose
     factors are the index map's element at that key and the component fuel F,
     for a key that walks the index map's own keys with nothing (guard, filter,
@@ -20,16 +24,25 @@ R3  amount = EI × component fuel (T-PAIR + def-use): per producer, every place
     comprehension passed to `.update` / the constructor.  The returned
     fuel_burn derives from the same F (sum / slice-sum), and zeroing stores
     into elements of the two maps (however the element is reached) come as
-    index/emission twins over one slice value.
+    index/emission twins over one slice value.  In compute_emissions the array
+    passed as the trajectory producer's multiplier (through any alias) is
+    zeros_like(fuel_mass) with the single store [1:] = fuel_mass[:-1] -
+    fuel_mass[1:].
 R4  windows complementary (T-AGREE, finite): for every member of
     ClimbDescentMode exactly one of "trajectory excludes climb/descent" and
     "LTO keeps approach/climb fuel" holds; LTO zeroes exactly approach and
-    climb fuel; the trajectory's fuel total and its zeroing use one slice.
+    climb of its per-mode fuel (stores under ThrustMode keys, or a loop over a
+    literal / named constant collection of modes); the trajectory's fuel total
+    and its zeroing use one slice.
 R5  speciation identities (T-ALG): NO + NO2 + HONO ≡ 100 % per thrust class as
-    a polynomial identity; GSE split literals sum to exactly 1; APU takes its
-    three fractions at one thrust mode; SOx = SO2 + SO4 wherever both are set;
-    BFFM2 multiplies one NOx index by three proportion arrays indexed by one
-    category array.
+    a polynomial identity; the constant shares of GSE NOx given to NO, NO2 and
+    HONO (written out per species, or rows of a constant table walked by a
+    loop; literals or named constants) sum to exactly 1; APU takes its three
+    fractions at one thrust mode; SOx = SO2 + SO4 wherever both are set; in
+    lto.py, wherever the NOx family is written (helper or producer), NO, NO2
+    and HONO are the one stored NOx index times their own fraction of a
+    NOx_speciation() result; BFFM2 multiplies one NOx index by three
+    proportion arrays indexed by one category array.
 R6  memoised mutables: a local bound from a call of a functools.cache'd function
     of the emissions package is not stored into in place unless it was rebound
     to a copy first (the generic form, including results kept in containers
@@ -43,8 +56,8 @@ import ast
 from fractions import Fraction
 
 from ..algebra import AlgebraError, normal_form, poly_equal
-from ..astutil import (ancestors, call_name, calls_in, enclosing_iterations, eval_pred, guards_of, kwarg, map_iteration,
-                       norm, single_def_value, stmt_of, stores_to, walk_no_nested)
+from ..astutil import (ancestors, is_within, call_name, calls_in, const_value, enclosing_iterations, eval_pred, guards_of, iterated_mapping,
+                       kwarg, local_defs, map_iteration, norm, single_def_value, stmt_of, stores_to, walk_no_nested)
 from ..conform import _inline_env
 
 EM = 'emissions/emission.py'
@@ -187,15 +200,39 @@ def rule_fuel(ctx):
     first = defs[0] if defs else None
     ok = first is not None and isinstance(first, ast.Assign)
     ctx.ob('C01-R2', ce, 'total starts from the first component (no stale value)', ok, norm(first) if ok else 'total_fuel_burn is not initialised by assignment', nontrivial=False)
-    fb = [s for t, s, how in stores_to(ce.node) if norm(t).startswith('fuel_burn_per_segment')]
-    ok = len(fb) == 2 and norm(fb[0].value) == 'np.zeros_like(traj.fuel_mass)' and norm(fb[1].targets[0]) == 'fuel_burn_per_segment[1:]' \
-        and norm(fb[1].value) == 'traj.fuel_mass[:-1] - traj.fuel_mass[1:]'
+    # the array handed to the trajectory producer as its per-segment fuel - under whatever local name(s) - is
+    # zeros_like(fuel_mass) with exactly one store, [1:] = fuel_mass[:-1] - fuel_mass[1:]
+    tc = next((c for c in calls_in(ce.node) if call_name(c) == 'get_trajectory_emissions'), None)
+    tfi = prog.func(TR, 'get_trajectory_emissions')
+    t_fuel = _producer_names(ctx, tfi, record=False)[3]
+    arg = None
+    if tc is not None and t_fuel in tfi.params:
+        i = tfi.params.index(t_fuel)
+        arg = kwarg(tc, t_fuel) or (tc.args[i] if i < len(tc.args) and not any(isinstance(a, ast.Starred) for a in tc.args) else None)
+    ok = arg is not None
+    ctx.ob('C01-R3', ce, 'trajectory producer receives that per-segment fuel', ok,
+           f'`{norm(arg)}` is passed as `{t_fuel}`, the array that multiplies the indices' if ok else
+           'cannot find what is passed as the per-segment fuel', nontrivial=False)
+    chain = _stands_for(ce.node, arg) if arg is not None else []
+    names = {x.id for x in chain if isinstance(x, ast.Name)}
+
+    def mass(e):
+        return any(norm(x) == 'traj.fuel_mass' for x in _stands_for(ce.node, e))
+
+    init = chain[-1] if chain else None
+    ok = isinstance(init, ast.Call) and call_name(init) in ('np.zeros_like', 'numpy.zeros_like') and len(init.args) == 1 and mass(init.args[0])
+    fb = [(t, s) for t, s, how in stores_to(ce.node) if isinstance(t, ast.Subscript) and isinstance(t.value, ast.Name) and t.value.id in names]
+    if ok and len(fb) == 1 and isinstance(fb[0][1], ast.Assign):
+        t, s = fb[0]
+        v = s.value
+        ok = norm(t.slice) == '1:' and isinstance(v, ast.BinOp) and isinstance(v.op, ast.Sub) \
+            and isinstance(v.left, ast.Subscript) and norm(v.left.slice) == ':-1' and mass(v.left.value) \
+            and isinstance(v.right, ast.Subscript) and norm(v.right.slice) == '1:' and mass(v.right.value)
+    else:
+        ok = False
     ctx.ob('C01-R3', ce, 'per-segment fuel = fuel-mass differences, booked at the segment end', ok,
            'fuel_burn[1:] = fuel_mass[:-1] - fuel_mass[1:], fuel_burn[0] = 0' if ok else 'per-segment fuel burn definition changed',
-           line=(fb[0].lineno if fb else ce.node.lineno))
-    tc = next((c for c in calls_in(ce.node) if call_name(c) == 'get_trajectory_emissions'), None)
-    ok = tc is not None and [norm(a) for a in tc.args] == ['pm', 'traj', 'fuel_burn_per_segment', 'fuel']
-    ctx.ob('C01-R3', ce, 'trajectory producer receives that per-segment fuel', ok, 'third argument' if ok else 'a different fuel array is passed', nontrivial=False)
+           line=(fb[0][1].lineno if fb else ce.node.lineno))
 
 
 def _stands_for(fn, e):
@@ -323,19 +360,105 @@ def _producer(ctx, fi, emis, idx, fuel_var, ret_fuel_ok):
     return mult, others
 
 
+def _subset_fields(prog, fi):
+    """field -> expression of the EmissionsSubset the producer returns (positional arguments mapped through the
+    dataclass's own field order); None when the function does not end in one such return"""
+    rets = [r for r in walk_no_nested(fi.node) if isinstance(r, ast.Return)]
+    if len(rets) != 1 or not isinstance(rets[0].value, ast.Call) or call_name(rets[0].value).split('[')[0] != 'EmissionsSubset':
+        return None
+    order = list(prog.cls('emissions/types.py', 'EmissionsSubset').annotated_fields())
+    c = rets[0].value
+    out = {order[i]: a for i, a in enumerate(c.args) if i < len(order) and not isinstance(a, ast.Starred)}
+    out.update({k.arg: k.value for k in c.keywords if k.arg})
+    return out
+
+
+def _fuel_source(fn, e):
+    """(variable, how, slice expr or None): the local whose content the reported component fuel `e` is - the variable
+    itself ('scalar'), or its sum `v.sum()` / `np.sum(v)` / `np.sum(v[s])` / `v[s].sum()` ('sum') - looking through
+    single-definition locals and float()"""
+    last = None
+    for x in _stands_for(fn, e):
+        while isinstance(x, ast.Call) and call_name(x) == 'float' and len(x.args) == 1:
+            x = x.args[0]
+        arg = None
+        if isinstance(x, ast.Call) and call_name(x) in ('np.sum', 'numpy.sum', 'sum', 'np.nansum') and len(x.args) == 1 and not x.keywords:
+            arg = x.args[0]
+        elif isinstance(x, ast.Call) and isinstance(x.func, ast.Attribute) and x.func.attr == 'sum' and not x.args and not x.keywords:
+            arg = x.func.value
+        if arg is not None:
+            sl = None
+            if isinstance(arg, ast.Subscript):
+                arg, sl = arg.value, arg.slice
+            names = [y for y in _stands_for(fn, arg) if isinstance(y, ast.Name)]
+            return (names[-1].id, 'sum', sl) if names else None
+        if isinstance(x, ast.Name):
+            last = x.id
+    return (last, 'scalar', None) if last else None
+
+
+def _seq_elts(prog, fi, e):
+    """elements of e when it is a literal list / tuple / set, written in place or reached through a single-definition
+    local, a module-level or an imported constant"""
+    for x in _stands_for(fi.node, e):
+        if isinstance(x, ast.Name) and not local_defs(fi.node, x.id) and x.id not in fi.params:
+            r = prog.resolve_name(fi.module, x.id)
+            if isinstance(r, tuple) and r[0] == 'const':
+                x = r[1].constants[r[2]]
+        if isinstance(x, (ast.List, ast.Tuple, ast.Set)):
+            return list(x.elts)
+    return None
+
+
+def _producer_names(ctx, fi, record=True):
+    """(index map, amount map, (fuel variable, how, slice)) of a producer, read off what it returns"""
+    f = _subset_fields(ctx.prog, fi)
+    if f is None or not all(k in f for k in ('indices', 'emissions', 'fuel_burn')) \
+            or not isinstance(f['indices'], ast.Name) or not isinstance(f['emissions'], ast.Name):
+        ctx.undecided('C01-R3', fi, 'return EmissionsSubset(indices, emissions, fuel_burn)', 'the producer\'s return is not recognised')
+    src = _fuel_source(fi.node, f['fuel_burn'])
+    if src is None:
+        ctx.undecided('C01-R3', fi, f'fuel_burn={norm(f["fuel_burn"])[:50]}', 'cannot tell which local the reported fuel is (the sum of)')
+    # the variable that multiplies the indices where the amounts are formed
+    mult = None
+    for key, val, at, st in _amount_sites(fi.node, f['emissions'].id):
+        ops = _product_operands(fi.node, val)
+        if ops and len(ops) == 2 and isinstance(key, ast.Name):
+            for a_, b_ in (ops, ops[::-1]):
+                el = _element_of(fi.node, a_, at)
+                if el is not None and el[0] == f['indices'].id:
+                    names = [x.id for x in _stands_for(fi.node, b_) if isinstance(x, ast.Name)]
+                    mult = mult or (names[-1] if names else None)
+    if mult is None:
+        ctx.undecided('C01-R3', fi, f'{f["emissions"].id}[k] = {f["indices"].id}[k] * fuel',
+                      'cannot tell which variable multiplies the indices where the amounts are formed')
+    ok = f['indices'].id != f['emissions'].id
+    if record:
+        ctx.ob('C01-R3', fi, f'returns indices={f["indices"].id}, emissions={f["emissions"].id}, fuel_burn={norm(f["fuel_burn"])[:40]}', ok,
+               'index map, amount map and fuel are three different things' if ok else 'the producer returns one map as both indices and amounts')
+    return f['indices'].id, f['emissions'].id, src, mult
+
+
 def rule_amounts(ctx):
     prog = ctx.prog
     # trajectory
     tf = prog.func(TR, 'get_trajectory_emissions')
-    mult, others = _producer(ctx, tf, 'emissions', 'indices', 'fuel_burn_per_segment', None)
+    t_idx, t_em, (t_fuel, t_how, t_slice), t_mult = _producer_names(ctx, tf)
+    mult, others = _producer(ctx, tf, t_em, t_idx, t_mult, None)
+    ok = t_how == 'sum' and isinstance(t_slice, ast.Name) and t_fuel == t_mult
+    ctx.ob('C01-R3', tf, f'trajectory fuel = {norm(_subset_fields(prog, tf)["fuel_burn"])}, amounts use {t_mult}', ok,
+           'sum of the same per-segment fuel the amounts use, over the counted slice' if ok else
+           ('the component\'s fuel total is not the sum of the per-segment fuel that multiplies the indices: '
+            'segments can have emissions whose fuel is missing from total fuel burn (or vice versa)'))
+    win = t_slice.id if isinstance(t_slice, ast.Name) else 'idx_slice'
     # window masking: constant stores into a slice of an *element* of the index / amount map, however the element is
     # reached (`m[k][a:b]`, the value variable of `for k, v in m.items()` / `m.values()`, or a local standing for it)
     zero = []
     for t, s, how in stores_to(tf.node):
         if isinstance(t, ast.Subscript) and isinstance(getattr(s, 'value', None), ast.Constant):
             el = _element_of(tf.node, t.value, s)
-            if el is not None and el[0] in ('indices', 'emissions'):
-                zero.append((t, s, el[0]))
+            if el is not None and el[0] in (t_idx, t_em):
+                zero.append((t, s, 'indices' if el[0] == t_idx else 'emissions'))
     by_slice = {}
     for t, s, which in zero:
         by_slice.setdefault(norm(t.slice), set()).add(which)
@@ -346,46 +469,38 @@ def rule_amounts(ctx):
         ctx.ob('C01-R3', tf, f'zeroing over [{sl}] applied to {sorted(who)}', ok,
                'index and amount are masked together' if ok else
                'only one of index/amount is masked: amount ≠ index × fuel inside the masked window')
-    ok = set(by_slice) == {':idx_slice.start', 'idx_slice.stop:'}
-    ctx.ob('C01-R4', tf, f'masked windows {sorted(by_slice)}', ok, 'everything outside idx_slice' if ok else
+    ok = set(by_slice) == {f':{win}.start', f'{win}.stop:'}
+    ctx.ob('C01-R4', tf, f'masked windows {sorted(by_slice)}', ok, f'everything outside {win}' if ok else
            'the masked windows are not the complement of the counted slice')
-    late = [s for t, s in [(t, s) for t, s, how in stores_to(tf.node) if isinstance(t, ast.Subscript) and norm(t.value) == 'indices']
+    late = [s for t, s in [(t, s) for t, s, how in stores_to(tf.node) if isinstance(t, ast.Subscript) and norm(t.value) == t_idx]
             if mult and s.lineno > mult[0].lineno]
     ctx.ob('C01-R3', tf, 'no index is rewritten after the amounts were formed', not late,
            'indices final before the multiplication' if not late else
            f'`{norm(late[0])[:60]}` changes an index after its amount was computed', line=(late[0].lineno if late else tf.node.lineno))
-    tfb = single_def_value(tf.node, 'total_fuel_burn')
-    ok = tfb is not None and norm(tfb) == 'np.sum(fuel_burn_per_segment[idx_slice])'
-    ctx.ob('C01-R3', tf, f'trajectory fuel = {norm(tfb) if tfb is not None else "?"}', ok,
-           'sum of the same per-segment fuel the amounts use, over the counted slice' if ok else
-           ('the component\'s fuel total is not the sum of the per-segment fuel that multiplies the indices: '
-            'segments can have emissions whose fuel is missing from total fuel burn (or vice versa)'),
-           line=(tfb.lineno if tfb is not None else tf.node.lineno))
-    ids = single_def_value(tf.node, 'idx_slice')
-    ok = ids is not None and norm(ids) == '_trajectory_slice(traj)'
-    ctx.ob('C01-R4', tf, 'one slice value drives masking and fuel total', ok, 'idx_slice = _trajectory_slice(traj)' if ok else
+    ids = single_def_value(tf.node, win)
+    ok = ids is not None and isinstance(ids, ast.Call) and call_name(ids) == '_trajectory_slice' and [norm(a) for a in ids.args] == ['traj']
+    ctx.ob('C01-R4', tf, 'one slice value drives masking and fuel total', ok, f'{win} = _trajectory_slice(traj)' if ok else
            'masking and fuel total use different windows')
-    ret = [n for n in walk_no_nested(tf.node) if isinstance(n, ast.Return)]
-    kw = {k.arg: norm(k.value) for k in ret[0].value.keywords} if ret and isinstance(ret[0].value, ast.Call) else {}
-    ok = kw == {'indices': 'indices', 'emissions': 'emissions', 'fuel_burn': 'total_fuel_burn'}
-    ctx.ob('C01-R3', tf, f'returns {kw}', ok, 'own maps and fuel' if ok else 'the producer returns crossed fields')
     # LTO
     lf = prog.func(LTO, 'get_LTO_emissions')
-    _producer(ctx, lf, 'lto_emissions', 'lto_indices', 'lto_fuel_burn', None)
-    fb = single_def_value(lf.node, 'lto_fuel_burn')
-    ok = fb is not None and norm(fb) in ('_LTO_TIMS * lto_data.fuel_flow', 'lto_data.fuel_flow * _LTO_TIMS')
-    ctx.ob('C01-R3', lf, 'LTO fuel = time in mode × fuel flow', ok, norm(fb) if ok else 'LTO fuel per mode changed')
-    ret = [n for n in walk_no_nested(lf.node) if isinstance(n, ast.Return)]
-    ok = ret and isinstance(ret[0].value, ast.Call) and [norm(a) for a in ret[0].value.args] == ['lto_indices', 'lto_emissions', 'lto_fuel_burn.sum()']
-    ctx.ob('C01-R3', lf, 'LTO returns indices, amounts and the sum of the same per-mode fuel', bool(ok),
-           'lto_fuel_burn.sum()' if ok else 'reported LTO fuel is not the sum of the fuel that multiplies the indices')
+    l_idx, l_em, (l_fuel, l_how, l_slice), l_mult = _producer_names(ctx, lf)
+    _producer(ctx, lf, l_em, l_idx, l_mult, None)
+    ops = _product_operands(lf.node, ast.Name(id=l_mult, ctx=ast.Load())) or ()
+    ok = len(ops) == 2 and any(
+        isinstance(a_, ast.Name) and a_.id == '_LTO_TIMS' and isinstance(b_, ast.Attribute) and b_.attr == 'fuel_flow'
+        and any(norm(x) == 'performance_model.lto' for x in _stands_for(lf.node, b_.value)) for a_, b_ in (ops, ops[::-1]))
+    ctx.ob('C01-R3', lf, 'LTO fuel = time in mode × fuel flow', ok, f'{l_mult} = _LTO_TIMS × performance_model.lto.fuel_flow' if ok
+           else 'LTO fuel per mode changed')
+    ok = l_how == 'sum' and l_slice is None and l_fuel == l_mult
+    ctx.ob('C01-R3', lf, 'LTO returns indices, amounts and the sum of the same per-mode fuel', ok,
+           f'{l_fuel}.sum()' if ok else 'reported LTO fuel is not the sum of the fuel that multiplies the indices')
     # APU
     af = prog.func(APU, 'get_APU_emissions')
-    _producer(ctx, af, 'emissions', 'indices', 'apu_fuel_burn', None)
-    ret = [n for n in walk_no_nested(af.node) if isinstance(n, ast.Return)]
-    ok = ret and [norm(a) for a in ret[0].value.args] == ['indices', 'emissions', 'apu_fuel_burn']
-    ctx.ob('C01-R3', af, 'APU returns indices, amounts and the same fuel', bool(ok), 'apu_fuel_burn' if ok else 'reported APU fuel differs from the multiplier')
-    fb = single_def_value(af.node, 'apu_fuel_burn')
+    a_idx, a_em, (a_fuel, a_how, a_slice), a_mult = _producer_names(ctx, af)
+    _producer(ctx, af, a_em, a_idx, a_mult, None)
+    ok = a_how == 'scalar' and a_fuel == a_mult
+    ctx.ob('C01-R3', af, 'APU returns indices, amounts and the same fuel', ok, a_fuel if ok else 'reported APU fuel differs from the multiplier')
+    fb = single_def_value(af.node, a_mult)
     ok = fb is not None and norm(fb) in ('apu.fuel_kg_per_s * apu_time', 'apu_time * apu.fuel_kg_per_s')
     ctx.ob('C01-R3', af, 'APU fuel = fuel flow × time', ok, norm(fb) if ok else 'APU fuel changed', nontrivial=False)
     # GSE: CO2 amount and fuel are tied by the fuel's CO2 index
@@ -445,17 +560,108 @@ def rule_windows(ctx):
                'every kilogram of climb/descent fuel is counted exactly once' if ok else
                ('climb/descent fuel is counted twice' if not traj_excludes and not lto_zeroes else
                 'climb/descent fuel is counted nowhere'), line=iff.lineno)
+    # which modes of the per-mode fuel (the variable whose sum the producer reports) are set to zero under that
+    # guard: stores under a ThrustMode key, or under the variable of a loop over a constant collection of modes
+    l_idx, l_em, _src, l_fuel = _producer_names(ctx, lf, record=False)
     zmodes = []
-    for lp in [n for n in ziff.body if isinstance(n, ast.For)]:
-        if any(isinstance(s, ast.Assign) and norm(s.targets[0]) == 'lto_fuel_burn[mode]' and norm(s.value) == '0.0' for s in lp.body):
-            zmodes = [norm(e) for e in lp.iter.elts] if isinstance(lp.iter, (ast.List, ast.Tuple)) else []
+    for t, s, how in stores_to(ziff):
+        if not (isinstance(t, ast.Subscript) and norm(t.value) == l_fuel and how == 'assign' and any(s is x or is_within(s, x) for x in ziff.body)):
+            continue
+        if const_value(s.value) != 0:
+            ctx.ob('C01-R4', lf, norm(s)[:60], False, 'the per-mode LTO fuel is overwritten with something other than zero', line=s.lineno)
+            continue
+        if isinstance(t.slice, ast.Attribute):
+            zmodes.append(norm(t.slice))
+        elif isinstance(t.slice, ast.Name):
+            lp = next((o for o, tg, it_ in enclosing_iterations(s, stop=ziff) if isinstance(tg, ast.Name) and tg.id == t.slice.id), None)
+            elts = _seq_elts(prog, lf, lp.iter) if isinstance(lp, ast.For) else None
+            if elts is None:
+                ctx.undecided('C01-R4', lf, norm(s)[:60], 'cannot tell which thrust modes the loop walks')
+            zmodes += [norm(e) for e in elts]
     ok = sorted(zmodes) == ['ThrustMode.APPROACH', 'ThrustMode.CLIMB']
     ctx.ob('C01-R4', lf, f'LTO fuel zeroed for {zmodes}', ok, 'exactly the two modes the trajectory window replaces' if ok else
            'the LTO modes whose fuel is dropped are not approach and climb')
     # the zeroing must precede the multiplication
-    mult = [s for t, s, how in stores_to(lf.node) if isinstance(t, ast.Subscript) and norm(t.value) == 'lto_emissions']
+    mult = [st for _k, _v, _at, st in _amount_sites(lf.node, l_em)]
     ok = bool(mult) and ziff.lineno < mult[0].lineno
     ctx.ob('C01-R4', lf, 'fuel is zeroed before the amounts are formed', ok, 'order' if ok else 'amounts are formed from unzeroed fuel', nontrivial=False)
+
+
+def _const_number(prog, fi, e):
+    """numeric value of e when it is a literal, or a name that stands for one (single-definition local, module-level
+    or imported constant); None otherwise"""
+    for x in _stands_for(fi.node, e):
+        v = const_value(x)
+        if isinstance(v, (int, float)) and not isinstance(v, bool):
+            return v
+        if isinstance(x, ast.Name) and single_def_value(fi.node, x.id) is None and not local_defs(fi.node, x.id):
+            r = prog.resolve_name(fi.module, x.id)
+            if isinstance(r, tuple) and r[0] == 'const':
+                v = const_value(r[1].constants[r[2]])
+                if isinstance(v, (int, float)) and not isinstance(v, bool):
+                    return v
+    return None
+
+
+def _table_rows(prog, fi, e, kind):
+    """[(key expr, value expr)] when e is a literal table - a dict display (kind 'dict') or a list / tuple of pairs
+    (kind 'pairs') - written in place or reached through a single-definition local, a module-level or an imported
+    constant"""
+    for x in _stands_for(fi.node, e):
+        if isinstance(x, ast.Name) and not local_defs(fi.node, x.id) and x.id not in fi.params:
+            r = prog.resolve_name(fi.module, x.id)
+            if isinstance(r, tuple) and r[0] == 'const':
+                x = r[1].constants[r[2]]
+        if isinstance(x, ast.Call) and len(x.args) == 1 and not x.keywords and call_name(x).split('[')[0] in (
+                'dict', 'OrderedDict', 'collections.OrderedDict', 'MappingProxyType', 'types.MappingProxyType', 'SpeciesValues'):
+            x = x.args[0]
+        if kind == 'dict' and isinstance(x, ast.Dict) and all(k is not None for k in x.keys):
+            return list(zip(x.keys, x.values))
+        if kind == 'pairs' and isinstance(x, (ast.List, ast.Tuple)) and x.elts and all(isinstance(r, (ast.Tuple, ast.List)) and len(r.elts) == 2 for r in x.elts):
+            return [(r.elts[0], r.elts[1]) for r in x.elts]
+    return None
+
+
+def _constant_shares(prog, fi, mp, base_key):
+    """species name -> [share, …] for every store `mp[Species.X] = mp[base_key] * c` of the function: written out per
+    species, or produced by a loop over a constant table of (species, share) rows.  A share that is not a known
+    number is recorded as None."""
+    fn = fi.node
+    base = f'{mp}[{base_key}]'
+    out = {}
+
+    def share_of(v, at, bind=None):
+        ops = _product_operands(fn, v)
+        if not ops or len(ops) != 2:
+            return None
+        for a, b in (ops, ops[::-1]):
+            if any(norm(x) == base for x in _stands_for(fn, a)):
+                if bind is not None and isinstance(b, ast.Name) and b.id == bind[0]:
+                    return _const_number(prog, fi, bind[1])
+                return _const_number(prog, fi, b)
+        return None
+
+    for t, st, how in stores_to(fn):
+        if not (isinstance(t, ast.Subscript) and norm(t.value) == mp and how == 'assign'):
+            continue
+        if isinstance(t.slice, ast.Attribute) and norm(t.slice.value) == 'Species':
+            if base in norm(st.value) or any(base in norm(x) for x in _stands_for(fn, st.value)):
+                out.setdefault(t.slice.attr, []).append(None if guards_of(st) else share_of(st.value, st))
+        elif isinstance(t.slice, ast.Name):
+            # for k, c in TABLE.items() / for k, c in PAIRS: mp[k] = mp[base] * c
+            for owner, tgt, it in enclosing_iterations(st):
+                if not (isinstance(tgt, (ast.Tuple, ast.List)) and len(tgt.elts) == 2 and all(isinstance(x, ast.Name) for x in tgt.elts)
+                        and tgt.elts[0].id == t.slice.id):
+                    continue
+                im = iterated_mapping(it)
+                rows = _table_rows(prog, fi, im[0], 'dict') if im is not None and im[1] == 'items' else \
+                    (_table_rows(prog, fi, it, 'pairs') if im is None or im[1] == 'keys' else None)
+                if rows is None:
+                    continue
+                for k, c in rows:
+                    if isinstance(k, ast.Attribute) and norm(k.value) == 'Species':
+                        out.setdefault(k.attr, []).append(None if guards_of(st, stop=owner) else share_of(st.value, st, (tgt.elts[1].id, c)))
+    return out
 
 
 def rule_speciation(ctx):
@@ -491,18 +697,20 @@ def rule_speciation(ctx):
         ctx.ob('C01-R5', sp, f'{k.arg} per mode = {args}', ok, 'idle→L, approach→A, climb/take-off→H, as fractions' if ok else
                f'mode order or scaling of `{k.arg}` differs from the other two species: the per-mode sum is not 1',
                line=k.value.lineno)
-    # GSE split
+    # GSE split: which constant share of GSE NOx each of NO / NO2 / HONO receives - from single stores or from a
+    # loop over a constant table (dict / sequence of pairs; local, module-level or imported)
     gf = prog.func(GSE, 'get_GSE_emissions')
+    shares = _constant_shares(prog, gf, 'gse', 'Species.NOx')
     tot = Fraction(0)
     n = 0
     for sp_ in ('NO', 'NO2', 'HONO'):
-        s = [st for t, st, how in stores_to(gf.node) if norm(t) == f'gse[Species.{sp_}]']
-        ok = len(s) == 1 and isinstance(s[0].value, ast.BinOp) and isinstance(s[0].value.op, ast.Mult) \
-            and norm(s[0].value.left) == 'gse[Species.NOx]' and isinstance(s[0].value.right, ast.Constant)
+        sh = shares.get(sp_, [])
+        ok = len(sh) == 1 and sh[0] is not None
         if ok:
-            tot += Fraction(repr(s[0].value.right.value))
+            tot += Fraction(repr(sh[0]))
             n += 1
-        ctx.ob('C01-R5', gf, f'GSE {sp_} = NOx × constant', ok, norm(s[0].value) if ok else f'GSE {sp_} is not a fixed share of GSE NOx', nontrivial=False)
+        ctx.ob('C01-R5', gf, f'GSE {sp_} = NOx × constant', ok, f'gse[Species.NOx] * {sh[0]!r}' if ok else
+               f'GSE {sp_} is not a fixed share of GSE NOx', nontrivial=False)
     ok = n == 3 and tot == 1
     ctx.ob('C01-R5', gf, f'GSE NOx shares sum to {tot}', ok, 'exactly one' if ok else 'GSE NO + NO2 + HONO ≠ GSE NOx')
     for fn_, mp in ((gf, 'gse'), (prog.func(APU, 'get_APU_emissions'), 'indices')):
@@ -526,15 +734,41 @@ def rule_speciation(ctx):
     s = [st for t, st, how in stores_to(af.node) if norm(t) == 'indices[Species.NOx]']
     ok = len(s) == 1 and norm(s[0].value) == 'apu.NOx_g_per_kg'
     ctx.ob('C01-R5', af, 'APU NOx index is the one that was speciated', ok, 'apu.NOx_g_per_kg' if ok else 'APU NOx differs from the speciated quantity', nontrivial=False)
-    lf = prog.func(LTO, '_lto_nox')
+    # LTO: wherever in lto.py the four NOx-family indices are written (a helper of their own, or the producer
+    # itself), NO / NO2 / HONO are the *same* NOx index times their own fraction of one NOx_speciation() result
+    sites = {}
+    for fi_ in prog.module(LTO).functions.values():
+        for t, st, how in stores_to(fi_.node):
+            if isinstance(t, ast.Subscript) and isinstance(t.slice, ast.Attribute) and norm(t.slice.value) == 'Species' \
+                    and t.slice.attr in ('NOx', 'NO', 'NO2', 'HONO') and how == 'assign':
+                sites.setdefault(t.slice.attr, []).append((fi_, st, norm(t.value)))
+    ctx.floor('C01-R5/lto', len(sites), 4, 'NOx-family species written in lto.py')
+    nx = sites.get('NOx', [])
+    lf = nx[0][0]
+    nox_txt = norm(nx[0][1].value) if len(nx) == 1 else None
+
+    def speciated(fi_, v, frac):
+        """text of the other factor when v is <something> × <NOx_speciation() result>.<frac>"""
+        ops = _product_operands(fi_.node, v)
+        if not ops or len(ops) != 2:
+            return None
+        for a_, b_ in (ops, ops[::-1]):
+            for x in _stands_for(fi_.node, a_):
+                if isinstance(x, ast.Attribute) and x.attr == frac and any(
+                        isinstance(y, ast.Call) and call_name(y).split('.')[-1] == 'NOx_speciation'
+                        for y in _stands_for(fi_.node, x.value)):
+                    return norm(b_)
+        return None
+
     for sp_, fr in (('NO', 'no'), ('NO2', 'no2'), ('HONO', 'hono')):
-        s = [st for t, st, how in stores_to(lf.node) if norm(t) == f'indices[Species.{sp_}]']
-        ok = len(s) == 1 and norm(s[0].value) in (f'lto_nox * speciation.{fr}', f'speciation.{fr} * lto_nox')
-        ctx.ob('C01-R5', lf, f'LTO {sp_} = LTO NOx × speciation.{fr}', ok, norm(s[0].value) if ok else
-               f'LTO {sp_} does not use its own fraction', nontrivial=False)
-    s = [st for t, st, how in stores_to(lf.node) if norm(t) == 'indices[Species.NOx]']
-    ok = len(s) == 1 and norm(s[0].value) == 'lto_nox'
-    ctx.ob('C01-R5', lf, 'LTO NOx index is the one that was speciated', ok, 'lto_nox' if ok else 'LTO NOx differs', nontrivial=False)
+        s = sites.get(sp_, [])
+        other = speciated(s[0][0], s[0][1].value, fr) if len(s) == 1 else None
+        ok = len(s) == 1 and nox_txt is not None and other == nox_txt and s[0][0] is lf and s[0][2] == nx[0][2]
+        ctx.ob('C01-R5', lf, f'LTO {sp_} = LTO NOx × speciation.{fr}', ok, norm(s[0][1].value) if ok else
+               f'LTO {sp_} does not use its own fraction of the LTO NOx index', nontrivial=False)
+    ok = nox_txt is not None
+    ctx.ob('C01-R5', lf, 'LTO NOx index is the one that was speciated', ok, nox_txt if ok else
+           'the LTO NOx index is written more than once', nontrivial=False)
     bf = nm.func('BFFM2_EINOx')
     cats = set()
     for prop, fr in (('noProp', 'no'), ('no2Prop', 'no2'), ('honoProp', 'hono')):
